@@ -24,8 +24,8 @@ RULE = (
 )
 ASSUMPTIONS = ["reference interpreter pbt/decref.py", "particle tables for conjugate names in CDecay'd tables"]
 
-DEF_NAMES = ("dm", "dgamma", "x_s", "Par.1", "beta~", "q'", "A/B", "rho*")
-ALIAS_NAMES = ("MA", "SLBKPOLE_DtoKlnu", "MyModel", "VSS_x", "Mod-1", "m(2)")
+DEF_NAMES = ("dm", "dgamma", "x_s", "Par.1", "beta~", "q'", "A/B", "rho*", "g", "x", "K")
+ALIAS_NAMES = ("MA", "SLBKPOLE_DtoKlnu", "MyModel", "VSS_x", "Mod-1", "m(2)", "SLBKPOLE2", "PHSP3body", "HELAMP100", "SVS7", "X")
 
 
 @st.composite
